@@ -23,7 +23,12 @@ Palette ==
   \cup (IF Rich THEN {TTag("C", 1, "D", TBool), ChoiceTT, TTag("A", 1, "D", Int0), TRef("RI"), TTag("C", 1, "I", TNull),
                       TTag("C", 0, "E", ChoiceIB), TStr("IA5", CNone, <<>>)} ELSE {})
 Flags == {"M", "O"}
+\* import-*: the last component refers to a type Ext imported from a second module LX: properly ("import-ok": LX
+\* defines Ext and exports it, or has no EXPORTS clause), or not (LX is not given; LX does not define Ext; LX has an
+\* EXPORTS clause that does not list Ext)
+ImportFaults == {"import-ok", "import-ok-exports-all", "import-no-module", "import-no-symbol", "import-not-exported"}
 Faults == {"none", "dup-ident", "dup-ident-last", "dup-enum-name", "dup-enum-value", "dup-enum-name-ext", "dup-enum-value-ext", "dangling-ref"}
+          \cup ImportFaults
 
 \* extAt = k > 0: an extension marker follows the k-th component (SEQUENCE only; the later components are extension additions)
 Init == kind \in {"CHOICE", "SET", "SEQUENCE"} /\ comps = <<>> /\ tagging = "" /\ fault = "none" /\ phase = "build" /\ l = 0 /\ extAt = 0
@@ -50,6 +55,7 @@ Next == AddComponent \/ SetTagging \/ InjectFault
 Faulty(cs) == CASE fault = "dup-ident" -> [cs EXCEPT ![2] = [cs[2] EXCEPT !.n = cs[1].n]]
                 [] fault = "dup-ident-last" -> [cs EXCEPT ![Len(cs)] = [cs[Len(cs)] EXCEPT !.n = cs[Len(cs) - 1].n]]
                 [] fault = "dangling-ref" -> [cs EXCEPT ![Len(cs)] = Comp(cs[Len(cs)].n, TRef("Nowhere"), "M")]
+                [] fault \in ImportFaults -> [cs EXCEPT ![Len(cs)] = Comp(cs[Len(cs)].n, TRef("Ext"), "M")]
                 [] OTHER -> cs
 EnumDef == CASE fault = "dup-enum-name" -> TEnum(<<EItem("a", 0), EItem("b", 1), EItem("a", 2)>>, FALSE, <<>>)
              [] fault = "dup-enum-value" -> TEnum(<<EItem("a", 0), EItem("b", 1), EItem("c", 1)>>, FALSE, <<>>)
@@ -66,8 +72,12 @@ TheModule ==
                [n |-> "CTT", t |-> TChoice(<<Comp("i", TTag("C", 0, "D", Int0), "M"), Comp("b", TTag("C", 1, "D", TBool), "M")>>, FALSE, <<>>)],
                [n |-> "RI", t |-> Int0],
                [n |-> "EN", t |-> EnumDef] >>]
+\* legality with the import resolved (Ext ::= OCTET STRING in LX) or not
+ImportResolves == fault \in {"import-ok", "import-ok-exports-all"}
+WithExt(mod) == [mod EXCEPT !.defs = @ \o <<[n |-> "Ext", t |-> TOctets(CNone)]>>]
+Verdict(L(_)) == IF fault \in ImportFaults THEN (ImportResolves /\ L(WithExt(TheModule))) ELSE L(TheModule)
 \* AUTOMATIC tagging makes CIB / CTT themselves automatically tagged (CIB gets [0],[1]; CTT is tagged already)
-Export == phase = "done" => PrintT(<<"SCN", ToJson([mod |-> TheModule, fault |-> fault, legal |-> Legal(TheModule), legal_split |-> LegalSplit(TheModule)])>>)
+Export == phase = "done" => PrintT(<<"SCN", ToJson([mod |-> TheModule, fault |-> fault, legal |-> Verdict(Legal), legal_split |-> Verdict(LegalSplit)])>>)
 \* both verdicts must occur (vacuity guard, checked by the glue on the exported set)
 
 \* ---- judge ------------------------------------------------------------------------
@@ -76,7 +86,7 @@ Log == ndJsonDeserialize(IOEnv.VERIF_TRACE)
 When(c, name) == IF c THEN {name} ELSE {}
 Ev == Log[l]
 LFaults(sc, ev) ==
-  LET legal == Legal(sc.mod) IN
+  LET legal == sc.legal IN
   When(ev.signal # 0, "compiler-died")
   \cup When(ev.signal = 0 /\ legal /\ ev.exit # 0, "legal-module-rejected")
   \cup When(ev.signal = 0 /\ ~legal /\ ev.exit = 0, "illegal-module-accepted")
